@@ -134,11 +134,12 @@ void *zone_malloc(zone_malloc_t *gdata, size_t size)
     int nb_units;
     zone_malloc_chunk_list_t* fl;
 
-    nb_units = (size + gdata->unit_size - 1) / gdata->unit_size;
+    size_t req_units = size / gdata->unit_size + ((size % gdata->unit_size) ? 1 : 0);
 
-    if (nb_units == 0) {
-        return NULL;
+    if (req_units == 0 || req_units > (size_t)gdata->max_segment) {
+        return NULL;  /* nothing to allocate, or more units than the zone holds (also avoids int truncation) */
     }
+    nb_units = (int)req_units;
 
     parsec_atomic_lock(&gdata->lock);
     /* try to find the smallest possible element, or one size larger */
